@@ -455,13 +455,16 @@ mod e2e {
         std::fs::write(www.join("page.html"), b"<html>page</html>").unwrap();
         std::fs::write(www.join("dir").join("index.html"), b"<html>dir index</html>").unwrap();
         std::fs::write(www.join("bin.dat"), (0..20000u32).map(|i| (i * 7 % 256) as u8).collect::<Vec<u8>>()).unwrap();
+        // a link below the root that climbs one level and stays inside; a file of the same relative name sits above the served directory
+        let _ = std::os::unix::fs::symlink("../a.txt", www.join("dir").join("up.txt"));
+        std::fs::write(r.join("a.txt"), b"TOPSECRET-SAME-NAME-ABOVE-ROOT").unwrap();
         std::env::set_current_dir(&www).unwrap();
     }
     pub fn corpus() -> Vec<(String, Vec<u8>)> {
         let mut v: Vec<(String, Vec<u8>)> = vec![];
         let mut add = |n: &str, r: String| v.push((n.to_string(), r.into_bytes()));
         for m in ["GET", "HEAD", "OPTIONS", "POST", "DELETE"] {
-            for t in ["/", "/a.txt", "/page", "/dir", "/dir/", "/missing", "/empty", "/a.txt?x=1#f", "/script.js", "/favicon.svg"] {
+            for t in ["/", "/a.txt", "/page", "/dir", "/dir/", "/missing", "/empty", "/a.txt?x=1#f", "/script.js", "/favicon.svg", "/dir/up.txt"] {
                 add(&format!("{} {}", m, t), format!("{} {} HTTP/1.1\r\nHost: localhost\r\n\r\n", m, t));
                 add(&format!("{} {} origin", m, t), format!("{} {} HTTP/1.1\r\nHost: localhost\r\nOrigin: https://foo.example\r\nAccess-Control-Request-Method: PUT\r\nAccess-Control-Request-Headers: X-A\r\n\r\n", m, t));
             }
